@@ -54,8 +54,9 @@ where
     /// # Warning
     ///
     /// This will DELETE all existing data on format/version errors. Use with caution.
-    pub fn forced_import_with(mut options: ImportOptions, format: Format) -> Result<Self> {
-        options.version = options.version + VERSION;
+    pub fn forced_import_with(options: ImportOptions, format: Format) -> Result<Self> {
+        // import_with adds the layer VERSION; adding it here as well made the two entry
+        // points disagree about the stored version.
         let res = Self::import_with(options, format);
         match res {
             Err(Error::WrongEndian)
